@@ -96,7 +96,7 @@ class Ptr:
 
 
 def gen_case(rng):
-    case = C.gen_case(rng, encs=["none", "none", "gzip", "bzip2", "bzip2", "text", "lzma", "sie"])
+    case = C.gen_case(rng, encs=["none", "none", "gzip", "bzip2", "bzip2", "text", "lzma", "sie"], model_only=True)
     # more pointer traffic, no failing calls, positions inside the field
     sp = C.Spec(case)
     fields = [r["name"] for r in case["raws"]] + [f["name"] for f in case["derived"]]
